@@ -540,6 +540,14 @@ def check_property(prop, tier, only=None, jobs=None, use_cache=True, do_replay=T
                                                 r["wall_s"], " (reused)" if r["reused"] else ""))
 
     violations, known_hits, inconcl, notes = [], [], [], []
+    # reachability witnesses are judged per property run: a cover that sits in an oracle function
+    # shared by several harnesses (e.g. one per slot occupancy pattern) must be satisfied in at
+    # least one of them; every harness must still have at least one satisfied cover of its own
+    sat_somewhere = set()
+    for h, r in results:
+        for c in r["checks"]:
+            if (".cover." in c["id"] or c["desc"].startswith("cover:")) and c["status"] == "SATISFIED":
+                sat_somewhere.add(c["desc"])
     samples = []
     n_checks = n_ok = n_cov = n_cov_ok = 0
     solver_s = 0.0
@@ -567,8 +575,13 @@ def check_property(prop, tier, only=None, jobs=None, use_cache=True, do_replay=T
         vccs += r["vccs"] or 0
         for i in inc:
             inconcl.append(h["name"] + ": " + i)
-        if covers_bad and not inc and not mine:
-            inconcl.append(h["name"] + ": vacuity witness not reached: " + "; ".join(covers_bad))
+        covers_bad = [cb for cb in covers_bad if cb.rsplit(" [", 1)[0] not in sat_somewhere]
+        own_sat = sum(1 for c in r["checks"] if (".cover." in c["id"] or c["desc"].startswith("cover:")) and c["status"] == "SATISFIED")
+        has_covers = any((".cover." in c["id"] or c["desc"].startswith("cover:")) for c in r["checks"])
+        if has_covers and own_sat == 0 and not inc and not mine:
+            inconcl.append(h["name"] + ": none of the harness's reachability witnesses is satisfied (vacuous harness?)")
+        elif covers_bad and not inc and not mine:
+            inconcl.append(h["name"] + ": vacuity witness not reached in any harness of this run: " + "; ".join(covers_bad))
         for f in others:
             notes.append("%s: failure attributed to %s (not this property): %s" % (h["name"], ",".join(f["props"]), f["desc"]))
         if others and not mine:
